@@ -25,6 +25,10 @@ type Rep struct {
 	Size       int64
 	Clone      []string // statuses returned by successive GetCloneStatus calls; last one repeats
 	headN      int
+	// what the whole-volume engine (clusterdiff) keeps of a replica directory besides the counter: the
+	// writes it applied while RW (ids, in order) and the persisted rebuilding flag
+	Log        []int
+	Rebuilding bool
 }
 
 type World struct {
@@ -62,6 +66,8 @@ type World struct {
 	OnRead func(addr string)
 	// OnClose: the same for a backend's Close (the controller closes a backend under its lock)
 	OnClose func(addr string)
+	// CurW: the id of the write request in flight (clusterdiff)
+	CurW int
 }
 
 func NewWorld() *World {
@@ -154,8 +160,13 @@ func (b *Backend) WriteAt(p []byte, off int64) (int, error) {
 	b.w.mu.Lock()
 	if r.Mode == "RW" {
 		r.Rev++
+		r.Log = append(r.Log, b.w.CurW)
 	}
 	b.w.mu.Unlock()
+	if s == "errapplied" {
+		// the write was applied, the reply is lost
+		return 0, fmt.Errorf("scripted failure after the write was applied")
+	}
 	return len(p), nil
 }
 func (b *Backend) ReadAt(p []byte, off int64) (int, error) {
